@@ -7,7 +7,7 @@ WT=/tmp/selftest_wt; CP=/tmp/selftest_verif
 HEAD=$(git -C /repo rev-parse HEAD)
 git -C /repo worktree remove --force $WT 2>/dev/null; git -C /repo worktree add -q --detach $WT $HEAD || exit 2
 rm -rf $CP; mkdir -p $CP; rsync -a --exclude .work --exclude .git --exclude replay /verif/ $CP/
-names=("$@"); if [ ${#names[@]} -eq 0 ]; then names=($(ls /verif/seeded | grep -E '^C[0-9]+-(w2)?m[0-9]+$')); fi
+names=("$@"); if [ ${#names[@]} -eq 0 ]; then names=($(ls /verif/seeded | grep -E '^C[0-9]+-(w[0-9])?m[0-9]+$')); fi
 OUT=/verif/seeded/RESULTS.md
 { echo "# Seeded mutants vs. checks"; echo; echo "Repo HEAD $HEAD; each patch applied to a scratch worktree, the quick check of the broken property run with VERIF_REPO pointing at it (exit 1 + VIOLATION expected), then reverted; last line: the same check on the clean worktree (exit 0 expected)."; echo; echo "| mutant | check | exit | violations | first symptom |"; echo "|---|---|---|---|---|"; } > $OUT
 fail=0
